@@ -6,12 +6,12 @@ From Emitter Require Import Lib.Base Model.MsgCodec Model.Channel Model.Key Mode
 
 (* a status request lists exactly the connections that would receive a message published to the
    channel now - those holding a subscription whose filter matches - with their usernames *)
-Theorem C18_status_exact : forall {I} (X : ixops I) abs inv, IxSpec X abs inv ->
+Theorem C18_status_exact : forall {I} (X : ixops I) abs inv okf, IxSpec X abs inv okf ->
   forall mqtt (b : @broker I) ssid i u, inv (b_trie b) ->
   (In (i, u) (presence_who X mqtt b ssid) <->
    exists s f c, In (f, s) (abs (b_trie b)) /\ matches mqtt f ssid = true
                  /\ conn_of_sub (b_conns b) s 0 = Some i /\ get_conn (b_conns b) (N.to_nat i) = Some c /\ u = cn_user c).
-Proof. intros I X abs inv HS. exact (presence_status_exact X abs inv HS). Qed.
+Proof. intros I X abs inv okf HS. exact (presence_status_exact X abs inv okf HS). Qed.
 Print Assumptions C18_status_exact.
 
 (* each subscription a connection makes queues exactly one 'subscribe' notification and its end
@@ -31,7 +31,7 @@ Print Assumptions C18_one_notification_per_transition.
    a presence-change subscription on the channel or on a parent of it (the presence ssid is
    [0; presence; contract; levels...] and matching is by prefix), so none after the request was
    cancelled; dispatching writes nothing but presence notifications and empties the queue *)
-Theorem C18_notification_reaches_exactly_the_watchers : forall {I} (X : ixops I) abs inv, IxSpec X abs inv ->
+Theorem C18_notification_reaches_exactly_the_watchers : forall {I} (X : ixops I) abs inv okf, IxSpec X abs inv okf ->
   forall e (acc : @broker I) n, inv (b_trie acc) ->
   let f := (fun acc2 s => match conn_of_sub (b_conns acc2) s 0 with
                           | Some i => emit acc2 i (PPresence (nf_sub n) (nf_chan n) (nf_who n) (nf_user n))
@@ -41,7 +41,7 @@ Theorem C18_notification_reaches_exactly_the_watchers : forall {I} (X : ixops I)
     /\ NoDup tg
     /\ forall i, In i tg <-> exists s g, In (g, s) (abs (b_trie acc)) /\ matches (e_mqtt e) g (nf_ssid n) = true
                                          /\ conn_of_sub (b_conns acc) s 0 = Some i.
-Proof. intros I X abs inv HS. exact (notification_dispatch_exact X abs inv HS). Qed.
+Proof. intros I X abs inv okf HS. exact (notification_dispatch_exact X abs inv okf HS). Qed.
 Print Assumptions C18_notification_reaches_exactly_the_watchers.
 
 Theorem C18_dispatch_only_notifies : forall {I} (X : ixops I) e (b : @broker I),
